@@ -54,8 +54,14 @@ def handmade_link(rng, serial, small=False):
     else:
         layout = (1, nw)
     hl = rng.choice([(1, 2), (1, 1, 1), (1, 2)])
+    goff = rng.choice([0, 0, 0, 1000, 123457, -7]) if nw >= 3 else 0
+    if goff < 0 and (layout[0] < 2 or layout[0] >= nw):
+        goff = 0          # a negative granule position on the first page is not an intact stream
     data, meta = streams.build_link(serial, channels=ch, rate=rate, bs0=bs0, bs1=bs1, wseq=tuple(wseq), total=total,
-                                    layout=layout, header_layout=hl)
+                                    layout=layout, header_layout=hl, gran_offset=goff)
+    if goff < 0:
+        meta["N"] = max(0, meta["N"] + goff)
+    meta["gran_offset"] = goff
     return data, meta
 
 
